@@ -27,37 +27,7 @@ VIEWS = {
 VIEW_UNITS = {"AnalogPayload": ("getSampleDt", NS + "AnalogPayload::SampleDt", {"aInt16": 2, "aInt32": 4})}
 
 
-def _view_syms(fb):
-    def syms(x):
-        if x.get("k") == "call":
-            c = x.get("callee") or {}
-            if c.get("nm") == "data" and "obj" in x and fb.is_payload_buffer(x["obj"]):
-                return "D"
-            if c.get("nm") == "size" and "obj" in x and fb.is_payload_buffer(x["obj"]):
-                return "L"
-            if c.get("name") == NS + "Payload::getLength":
-                return "L"
-            if c.get("name") == NS + "Payload::getRawPayload":
-                return "D"
-            if (x.get("t") or {}).get("k") == "ptr" and c.get("inrepo") and facts.inline_accessor(fb, x) is None:
-                return "C:" + canon(x)
-        return None
-    return syms
-
-
-def pointer_rows(fb, ptrf):
-    """Linear forms {D|C:<call>: 1, 1: k} of the non-null values the pointer getter returns (one per path)."""
-    from rules.decoder_rules import _linear
-    out = []
-    for p in paths.enumerate_paths(ptrf):
-        if p.end != "exit":
-            continue
-        v = paths.returned_value(p)
-        if v is None or paths.is_null_value(v):
-            continue
-        form = _linear(ptrf, v, _view_syms(fb))
-        out.append((p, v, form))
-    return out
+from cmpverif.views import view_syms as _view_syms, pointer_rows  # noqa: E402
 
 
 def rule_view_extent(fb, res, cls, key, ptrf, lenf, hsize, bound_minus=None, reader_arg=None):
@@ -222,6 +192,89 @@ def validator_facts(fb, val):
         K = k if K is None else min(K, k)
         bounded = b if bounded is None else (bounded & b)
     return K, bounded
+
+
+def rule_message_validator_exact(fb, res, rid, prefix="isValidPacket:"):
+    """Completeness of the message-level validator: every condition a message must meet to be accepted is one of the protocol's —
+    the header fits (size >= c, c <= 16), the declared payload fits (length + c <= size, c <= 16), the error-in-payload flag is clear,
+    the payload type is not 0.  A stronger size bound, a condition on the length alone, or a test of any other field rejects complete
+    messages (a header-only message at the end of a frame, a zero-length segment)."""
+    from rules.decoder_rules import _linear
+    ivp = fb.fn(NS + "Packet::isValidPacket")
+    sizep = ivp.params[1]["decl"]
+    mh = fb.record(NS + "MessageHeader")["size"]
+    mf = MustFacts(ivp)
+    LEN = NS + "MessageHeader::getPayloadLength"
+
+    def syms(z):
+        if z.get("k") == "ref" and z.get("decl") == sizep:
+            return "n"
+        if z.get("k") == "call" and callee_name(z) == LEN:
+            return "L"
+        return None
+    nret = 0
+    for r in ivp.returns():
+        e = r.get("e")
+        if const_value(e) == 0:
+            continue
+        atoms = list(mf.at(r))
+        if const_value(e) != 1:
+            atoms += conjuncts(e, True, ivp)
+        nret += 1
+        seen = set()
+        for a in atoms:
+            key = a[:4] if a[0] == "cmp" else a[:3]
+            if key in seen:
+                continue
+            seen.add(key)
+            nodes = [a[4], a[5]] if a[0] == "cmp" else [a[3]]
+            getters = set()
+            mentions_size = False
+            for nd in nodes:
+                ex = facts.expand(ivp, nd)
+                getters |= {c for c in called_names(ex) if c.startswith(NS + "MessageHeader::get")}
+                mentions_size = mentions_size or sizep in reads(ex)
+            why = None
+            if not getters and not mentions_size:
+                continue  # says nothing about the message
+            if getters <= {NS + "MessageHeader::getCommonFlag", NS + "MessageHeader::getCommonFlags"} and not mentions_size:
+                continue  # error-in-payload flag (its bit is C04-R5 / C12-R1f's)
+            if getters == {NS + "MessageHeader::getPayloadType"} and not mentions_size:
+                ok = a[0] == "cmp" and a[2] == "!=" and 0 in (const_value(a[4]), const_value(a[5])) or (a[0] == "truth" and a[2] is True)
+                if ok:
+                    continue
+                why = "tests the payload type for something else than `!= 0`"
+            elif getters <= {LEN} and a[0] == "cmp" and a[2] in ("<", "<=", ">", ">="):
+                l, rr = _linear(ivp, a[4], syms), _linear(ivp, a[5], syms)
+                if l is not None and rr is not None:
+                    d = dict(l)
+                    for k2, v2 in rr.items():
+                        d[k2] = d.get(k2, 0) - v2
+                    if a[2] in ("<", "<="):
+                        d = {k2: -v2 for k2, v2 in d.items()}
+                    c = -d.get(1, 0) + (1 if a[2] in ("<", ">") else 0)  # normalised: n*dn + L*dL >= c
+                    dn, dl = d.get("n", 0), d.get("L", 0)
+                    if dn == 1 and dl == 0:
+                        if c <= mh:
+                            continue
+                        why = "requires size >= %d: a complete message needs only %d bytes plus its declared payload" % (c, mh)
+                    elif dn == 1 and dl == -1:
+                        if c <= mh:
+                            continue
+                        why = "requires payload length + %d <= size: a complete message needs only payload length + %d" % (c, mh)
+                    else:
+                        why = "a condition on %s other than `fits into the remaining bytes`" % ("the payload length" if dl else "the size")
+                else:
+                    why = "a size/length condition that is not linear"
+            else:
+                why = "tests %s" % (", ".join(sorted(g.split("::")[-1] for g in getters)) or "the size") + " in a way the protocol does not prescribe"
+            res.bad(rid, prefix + "accepts-complete-messages:%s" % canon(a[4] if a[0] == "cmp" else a[3])[:50], (nodes[0].get("loc") or ivp.loc),
+                    "isValidPacket accepts a message only under `%s %s %s`: %s — complete messages are rejected and, in the decoder, drop the rest of "
+                    "the frame and the endpoint's pending reassembly" % (((a[1][:60], a[2], a[3][:40]) if a[0] == "cmp" else (a[1][:60], "is", a[2])) + (why,)))
+    if nret == 0:
+        raise Broken("isValidPacket never returns true")
+    res.ok(rid, prefix + "accepts-complete-messages", ivp.loc, "every acceptance condition is one of: header fits, declared payload fits, error flag clear, "
+           "payload type != 0 (%d accepting return(s))" % nret)
 
 
 def buffer_end_locals(fn):
